@@ -438,8 +438,8 @@ class C05(Check):
         for fr in traceback.extract_tb(exc.__traceback__):
             if os.path.abspath(fr.filename).startswith(self.src):
                 fn, line = fr.name, fr.line or ''
-        fp = ''.join(ch for ch in line if ch.isalnum() or ch in '._[]()=')
-        return '%s[%s]' % (fn, fp[:48])
+        fp = ''.join(ch for ch in line if ch.isalnum() or ch in '._')
+        return '%s[%s]' % (fn, fp[:40])
 
     def call(self, entry, adf, rdf, opts, anames, rnames, paths):
         rt = self.rt
